@@ -5,6 +5,7 @@ Per generated 2D source (SEG-Y without line numbering, or with a single inline /
 (1, n, m) blockshape / bit rate >= 1:
 
  DIRECT ORACLE (never uses the model): trace count and sample axis of the SGZ equal the source's; get_trace(i),
+   get_trace(i, lo, hi) for boundary sample windows (and IndexError for windows outside 0 <= lo < hi <= n_samples),
    trace[i] / trace[a:b] of seismic_zfp.open, read_subplane windows (boundary set) equal BIT FOR BIT the 2-D zfpy image
    (whole edge-extended padded-traces x padded-samples array compressed with zfpy at that rate, decompressed, cropped);
    gen_trace_header(i) / header[i] equal the source header i (segyio); every volume-style read raises the
@@ -103,6 +104,18 @@ def windows(nt, ns, bs1, bs2):
     return out[:(14 if quick else 60)] + [(0, nt, 0, ns)]
 
 
+def trace_windows(nt, ns, bs1, bs2, PZ, k):
+    """(trace, lo, hi): boundary windows inside the trace, open-ended ones, and windows that must be refused"""
+    zv = sorted({v for v in (0, 1, 3, 4, 5, bs2 - 1, bs2, bs2 + 1, 2 * bs2, ns // 2, ns - 1, ns) if 0 <= v <= ns})
+    tv = sorted({v for v in (0, 3, 4, bs1 - 1, bs1, nt // 2, nt - 1) if 0 <= v < nt})
+    good = [(lo, hi) for lo, hi in itertools.combinations(zv, 2)] + [(None, ns // 2 + 1), (ns // 2, None), (None, None), (ns - 1, ns), (0, 1)]
+    bad = [(0, ns + 1), (ns, ns + 1), (3, 3), (min(5, ns), 2), (-1, 3), (0, PZ + 1), (None, 0), (ns, None), (None, ns + 4), (-ns, None)]
+    bad = [w for w in bad if not (0 <= (0 if w[0] is None else w[0]) < (ns if w[1] is None else w[1]) <= ns)]
+    rng.shuffle(good)
+    out = [(rng.choice(tv),) + w for w in good[:k]] + [(rng.choice(tv),) + w for w in rng.sample(bad, min(len(bad), max(3, k // 3)))]
+    return out
+
+
 pending = []      # writer / header / detect correspondence cases, evaluated in one batch at the end
 model = None
 if not a.no_model:
@@ -110,6 +123,20 @@ if not a.no_model:
         from corr_reads import FileUnderTest, calls_for
         from modelclient import Model
         model = Model()
+
+        class Fut2(FileUnderTest):
+            def oracle(self, method, args):
+                sp = self.spec
+                if sp.is2d and method == 'get_trace':
+                    i, lo, hi = (list(args) + [None, None])[:3]
+                    if not 0 <= i < sp.tracecount:
+                        return ('err', 'IndexErr')
+                    lo = 0 if lo is None else lo
+                    hi = sp.n_s if hi is None else hi
+                    if not 0 <= lo < hi <= sp.n_s:
+                        return ('err', 'IndexErr')
+                    return ('val', self.vol[i, lo:hi])
+                return FileUnderTest.oracle(self, method, args)
     except Exception as e:
         R.notes.append(f'extracted reader model not available ({type(e).__name__}: {e}): reader correspondence skipped')
         model = None
@@ -170,6 +197,23 @@ def run_case(kind, nt, ns, bpv, bs, fmt, dt_us, t0, hd):
             if not bits_equal(t, image[i]):
                 vio('oracle', dict(inp, call='get_trace', args=[i]), f'trace {i} differs from the 2-D zfpy image (max abs diff {float(np.max(np.abs(np.asarray(t, dtype=np.float64) - image[i]))) if np.shape(t) == image[i].shape else "shape"})')
                 break
+        for i, lo, hi in trace_windows(nt, ns, bs1, bs2, PZ, 10 if quick else 40):
+            R.case(f'{label}|get_trace|{i},{lo},{hi}', sample={'case': label, 'call': 'get_trace', 'args': [i, lo, hi]})
+            R.count('get_trace window')
+            elo, ehi = (0 if lo is None else lo), (ns if hi is None else hi)
+            good = 0 <= elo < ehi <= ns
+            try:
+                t = ('val', np.asarray(r.get_trace(i, lo, hi)))
+            except Exception as e:
+                t = ('err', exc_class(e))
+            if good and not (t[0] == 'val' and bits_equal(t[1], image[i, elo:ehi])):
+                vio('oracle', dict(inp, call='get_trace', args=[i, lo, hi]),
+                    f'trace window differs from the 2-D zfpy image: got {t[1] if t[0] == "err" else t[1].shape}, expected shape {(ehi - elo,)}')
+                break
+            if not good and t != ('err', 'IndexErr'):
+                vio('oracle', dict(inp, call='get_trace', args=[i, lo, hi]),
+                    f'window outside 0 <= lo < hi <= {ns} not refused: {t[1] if t[0] == "err" else t[1].shape}')
+                break
         for i in idx:
             R.case(f'{label}|gen_trace_header|{i}', sample={'case': label, 'call': 'gen_trace_header', 'args': [i]})
             R.count('gen_trace_header')
@@ -228,9 +272,10 @@ def run_case(kind, nt, ns, bpv, bs, fmt, dt_us, t0, hd):
                 vio('oracle', dict(inp, call=nm + '[0]'), f'{got}, expected the dimensionality error')
     # ---------------- reader correspondence (extracted generated reader)
     if model is not None:
-        fut = FileUnderTest(p, model)
+        fut = Fut2(p, model)
         try:
             calls = calls_for(rng, fut, 6 if quick else 20)
+            calls += [('get_trace', (i, lo, hi)) for i, lo, hi in trace_windows(nt, ns, bs1, bs2, sp.shape_pad[2], 6 if quick else 16)]
             for method, args in calls:
                 ok, knd, detail = fut.check(method, args)
                 R.case(f'{label}|corr|{method}|{args}', nontrivial=False)
@@ -381,5 +426,4 @@ finally:
     shutil.rmtree(d, ignore_errors=True)
     if model:
         model.close()
-R.notes.append('2D get_trace(i, lo, hi) ignores the sample window and returns the whole trace (generated model and implementation agree; not part of the C09 text)')
 R.write(a.out)
